@@ -151,7 +151,7 @@ def build(job):
             for k, v in job['then'].get('set', {}).items():
                 setattr(t, k, v)
             t.write(job['then']['write'])
-        out = t(v=1, lst=[1, 2], title='Hello', translate=lambda m, **k: '[%s]' % m)
+        out = t(v=1, lst=[1, 2], title='Hello', translate=lambda m, **k: '[%s]' % m + ''.join('{%s=%s}' % kv for kv in sorted((k.get('mapping') or {}).items())))
         if isinstance(out, bytes):
             out = out.decode('utf-8')
         return out
